@@ -144,7 +144,10 @@ class SymGen:
             return self.mk_instance(cls, name, args)
         # external class
         kind = cls if isinstance(cls, str) else head
-        return VExt(kind, self.leaf(z3.IntSort(), name, args))
+        ext = VExt(kind, self.leaf(z3.IntSort(), name, args))
+        if kind.startswith("ast.") and self.engine.ast_model is not None:
+            self.path.add_fact(self.engine.ast_model[0](self, ext, kind.split(".")[-1]))
+        return ext
 
     def mk_instance(self, cls: ClassInfo, name: str, args: Tuple[Any, ...]) -> V:
         if cls.is_enum():
@@ -255,6 +258,8 @@ class SymGen:
             return key.idx
         if isinstance(key, SymObj):
             return key.ident
+        if type(key).__name__ == "ConcObj":
+            return self.bi_id([key], {}, None, None).t  # identity of an object allocated on this path
         if isinstance(key, VBool):
             return key.t
         raise Unsupported(f"dict/set key {key!r}")
